@@ -323,6 +323,7 @@ func (c *channel) CtxWritev(ctx context.Context, pv [][]byte) (n int64, err erro
 // ReadFrom reads data from r until EOF or error.
 // The return value n is the number of bytes read.
 func (c *channel) ReadFrom(r io.Reader) (n int64, err error) {
+	verifPoint(c, "rf.enter")
 	if !c.IsActive() {
 		return 0, c.closedError()
 	}
